@@ -52,8 +52,18 @@ def make_jobs(rng, d, njobs, nfiles):
         fs2 = lang.FileSpec.__new__(lang.FileSpec)
         fs2.__dict__.update(fs.__dict__)
         fs2.named = False
-        g = gen.Gen(rng, fs2, AND=True, groups=("core",))
+        # some jobs rewrite the line (replace/append/collect): append() adds to the header names of ITS run only
+        g = gen.Gen(rng, fs2, AND=True, groups=("core", "rewrite") if rng.random() < 0.5 else ("core",))
         prog = g.program(ncomps=rng.choice([1, 2, 3]))
+        # two jobs share a file (j and j + nfiles): the earlier one often appends a header, the later one looks at the header names
+        if rng.random() < 0.7:
+            if j < nfiles:
+                ap = lang.fn("append", lang.term("extra"), lang.term("v"))
+                ap["name_q"] = "apx"
+                prog["comps"].append(ap)
+            else:
+                prog["comps"].append(lang.assign(lang.var("nh"), lang.fn("count_headers")))
+                prog["comps"].append(lang.assign(lang.var("ex"), lang.hdr("extra")))
         prog["scan"] = lang.scan("from", 1)
         # header-name dependent results: capture the header names the run sees
         text = lang.render_csvpath(prog, path)
